@@ -15,4 +15,5 @@ CONSTANTS
   MaxOps = 9
   Dev = "none"
 INVARIANTS Distinct Increasing BelowServer ReservedFresh ExtraInByte
+SYMMETRY PermsCD
 CHECK_DEADLOCK FALSE
